@@ -116,6 +116,7 @@ type c19op struct {
 }
 
 type c19world struct {
+	rebind     map[string]netip.Addr // names whose address changes between two lookups: the later answer
 	m          *Mesh
 	ex, in     int
 	rp         *RawPeer
@@ -594,7 +595,9 @@ func (w *c19world) planRaw() *rawPlan {
 	if simrt.Chance(1, 3, "path-self") {
 		p.path = []identity.AgentID{w.m.Nodes[w.ex].ID}
 	}
-	if !simrt.Chance(1, 5, "unserved") {
+	if b, changes := w.rebind[normName(p.r.name)]; changes && p.r.hasName {
+		w.serve(b, p.r.port) // the first address refuses, the later one accepts
+	} else if !simrt.Chance(1, 5, "unserved") {
 		w.serve(p.target, p.r.port)
 	}
 	return p
@@ -653,7 +656,9 @@ func (w *c19world) planHonest() *honestPlan {
 		d := w.drawDest(true)
 		p.host, p.target = d.String(), d
 	}
-	if !simrt.Chance(1, 5, "unserved") {
+	if b, changes := w.rebind[normName(p.r.name)]; changes && p.r.hasName {
+		w.serve(b, p.r.port) // the first address refuses, the later one accepts
+	} else if !simrt.Chance(1, 5, "unserved") {
 		w.serve(p.target, p.r.port)
 	}
 	return p
@@ -1009,6 +1014,20 @@ func runC19() {
 		a := netip.MustParseAddr(all[simrt.Choose(len(all), "dns")])
 		w.dns[k] = a
 		m.Net.SetDNS(k, net.ParseIP(a.String()))
+		if simrt.Chance(1, 4, "dns-changes") {
+			// the name's address changes between two lookups; the first address
+			// refuses connections (nothing is served there), the second one may
+			// lie anywhere: every address the exit dials has to be permitted
+			b := netip.MustParseAddr(all[simrt.Choose(len(all), "dns2")])
+			if b != a {
+				if w.rebind == nil {
+					w.rebind = map[string]netip.Addr{}
+				}
+				w.rebind[k] = b
+				m.Net.SetDNSSequence(k, []net.IP{net.ParseIP(a.String())}, []net.IP{net.ParseIP(b.String())})
+				simrt.Probe("c19_name_whose_address_changes")
+			}
+		}
 	}
 	simrt.Eventf("exit=%s ingress=%s enabled=%v cidrs=%v domains=%v focus=%v", exNode.Name, m.Nodes[w.in].Name, w.enabled, w.cfgCIDRs, w.cfgDomains, w.focus)
 	if !w.enabled {
